@@ -103,6 +103,10 @@ class CondGen(object):
                 out += self.conditional(depth + 1)
         if r.random() < 0.2:
             out += ' T' + name[2:] + ' '
+        if r.random() < 0.1:
+            # a macro whose name starts with `if` but which is no conditional (like \ifthenelse, \iflanguage): it does not nest
+            self.helpers.add('ifzqmac')
+            out += '\\ifzqmac '
         return out
 
     def conditional(self, depth):
@@ -175,7 +179,8 @@ class CondGen(object):
             test = '\\ifdefined\\%s ' % nm
         else:
             if not self.switches or r.random() < 0.3:
-                self.switches.append('ifzqsw' + alpha(len(self.switches)))
+                # the part after `if` starts with z, f or i (the setters are named by cutting the two letters `if`, nothing more)
+                self.switches.append(r.choice(['ifzqsw', 'ifzqsw', 'iffzq', 'ifizq', 'ififzq']) + alpha(len(self.switches)))
             sw = r.choice(self.switches)
             pre = ''
             if r.random() < 0.4:
@@ -231,6 +236,8 @@ class CondGen(object):
             pre += '\\def\\%s{%s}' % (name, b)
         for sw in self.switches:
             pre += '\\newif\\%s ' % sw
+        if 'ifzqmac' in self.helpers:
+            pre += '\\def\\ifzqmac{Qi}'
         if 'zqrlx' in self.helpers:
             pre += '\\let\\zqrlx\\relax '
         if 'zqid' in self.helpers:
